@@ -438,7 +438,7 @@ class NetworkService(ModelElement):
         ns.topo.graph_model.remove_cp_and_links(node_id=sp[-2])
         # update interface lists
         self._interfaces = list(filter((lambda x: x.node_id != sp[1]), self._interfaces))
-        ns._interfaces = list(filter((lambda x: x.node_id != sp[-2]), self._interfaces))
+        ns._interfaces = list(filter((lambda x: x.node_id != sp[-2]), ns._interfaces))
 
     def copy_to_peer_labels(self) -> None:
         """
